@@ -1669,7 +1669,7 @@ pub fn worker(seed: u64, base: u64, from: u64, n: u64) {
     let rt = runtime();
     let mut drv = Driver::spawn().expect("driver");
     let mut rep = Report::default();
-    crate::start_watchdog(6);
+    crate::start_watchdog(10);
     for idx in from..from + n {
         println!("START {idx}");
         crate::case_begins();
